@@ -58,6 +58,8 @@ type config struct {
 	budget    time.Duration
 }
 
+var quickMask = map[int]bool{0x1f: true, 0: true, 0x15: true, 0x0a: true, 0x01: true, 0x10: true, 0x0e: true}
+
 func mkConfig(thorough bool) *config {
 	c := &config{
 		thorough:  thorough,
@@ -69,7 +71,7 @@ func mkConfig(thorough bool) *config {
 		zMultiUp:  zSingle,
 		masks:     []int{0x1f, 0, 0x15, 0x0a, 0x01, 0x10, 0x0e},
 		expands:   [][]int{{1, 1, 1, 1, 1}, {0, 0, 0, 0, 0}, {0, 1, 2, 3, 1}, {3, 3, 3, 3, 3}, {7, 0, 0, 0, 2}, {0, 0, 4, 0, 0}},
-		budget:    100 * time.Second,
+		budget:    4 * time.Minute,
 	}
 	if thorough {
 		c.seqs = dstSeqs(3)
@@ -327,10 +329,12 @@ func buildCases(cfg *config) []*tcase {
 		}
 
 		// filter: keep the rows whose index is in mask.
-		paramSchema := s == sInt || s == sIntPt || cfg.thorough
-		for mi, mask := range cfg.masks {
+		// Operator parameters (filter masks, flatmap expansions, head counts) are
+		// crossed with two schemas; the other schemas get representative parameters.
+		paramSchema := s == sInt || s == sIntPt
+		for _, mask := range cfg.masks {
 			mask := mask
-			if !paramSchema && mi != 2 {
+			if !(s == sInt || (s == sIntPt && quickMask[mask]) || mask == 0x15) {
 				continue
 			}
 			fl := bigslice.Filter(src, predFn(s, ords, mask))
@@ -570,6 +574,19 @@ func buildCases(cfg *config) []*tcase {
 
 	cases = append(cases, keyedCases(cfg)...)
 	cases = append(cases, scannerCases(cfg)...)
+	// Readers with few cases first, so that a time budget cuts into the largest
+	// spaces only; the order inside a reader (simplest first) is kept.
+	perReader := map[string]int{}
+	for _, tc := range cases {
+		perReader[tc.reader]++
+	}
+	sort.SliceStable(cases, func(i, j int) bool {
+		a, b := cases[i].reader, cases[j].reader
+		if perReader[a] != perReader[b] {
+			return perReader[a] < perReader[b]
+		}
+		return a < b
+	})
 	return cases
 }
 
@@ -699,7 +716,7 @@ func keyedCases(cfg *config) []*tcase {
 					ss[i] = s
 				}
 				for _, parts := range assignments(rows, k) {
-					add(multiUpCases(tcase{reader: "sortio.MergeReader", desc: fmt.Sprintf("schema=%s keys=%v", s.name, keys), out: s.cols, mode: cmpKeyOrdered, chunkDep: true}, ss, parts, zNone,
+					add(multiUpCases(tcase{reader: "sortio.MergeReader", desc: fmt.Sprintf("schema=%s keys=%v", s.name, keys), out: s.cols, mode: cmpKeyOrdered, chunkDep: true, oneAtATime: k == 3}, ss, parts, zNone,
 						func(ups []sliceio.Reader) sliceio.Reader {
 							r, err := sortio.NewMergeReader(bg, s.typ(), ups)
 							if err != nil {
@@ -968,7 +985,9 @@ func (h *hashSet) add(s string) {
 func (h *hashSet) size() int {
 	n := 0
 	for i := range h.m {
+		h.mu[i].Lock()
 		n += len(h.m[i])
+		h.mu[i].Unlock()
 	}
 	return n
 }
@@ -982,7 +1001,29 @@ type vrec struct {
 	f         finding
 }
 
+var flagCount = flag.Bool("count", false, "development aid: only count the points of the enumeration per reader, run nothing")
+
 var flagOnly = flag.String("only", "", "development aid: run only readers whose name contains this string")
+
+// hangAfter is the watchdog for a single run (one reader driven to EOF: normally
+// well under 10 ms, a few hundred ms for cogroup on a loaded machine). A run that
+// exceeds it is re-executed twice with the same limit before it is reported.
+var hangAfter = 240 * time.Second
+
+func init() {
+	// Development aid (testing the watchdog itself against a mutated tree).
+	if v, err := strconv.Atoi(os.Getenv("C17_HANG_AFTER_S")); err == nil && v >= 20 {
+		hangAfter = time.Duration(v) * time.Second
+	}
+}
+
+type inflight struct {
+	tc    *tcase
+	seq   []int
+	order [3]int
+	chunk int
+	start time.Time
+}
 
 func main() {
 	r := ev.Start("C17", "model_checking")
@@ -1003,6 +1044,14 @@ func main() {
 	sort.Strings(readerNames)
 	traces := newHashSet()
 	outcomes := ev.NewCounter()
+	var ocMu sync.Mutex
+	outcomeRuns := map[string]int{} // runs per (reader, outcome class)
+	countOutcome := func(k string) {
+		outcomes.Add(k)
+		ocMu.Lock()
+		outcomeRuns[k]++
+		ocMu.Unlock()
+	}
 	var totalRuns, totalReads int64
 	var vmu sync.Mutex
 	best := map[string]*vrec{}
@@ -1010,154 +1059,266 @@ func main() {
 	var skipped int64
 	var sampleMu sync.Mutex
 	sampled := map[string]bool{}
+	var aborted int32
 
-	for phase, chunk := range cfg.chunks {
-		setChunk(chunk)
-		var todo []int
-		for i, tc := range cases {
-			if *flagOnly != "" && !strings.Contains(tc.reader, *flagOnly) {
-				continue
-			}
-			if phase == 0 || (tc.chunkDep && !(tc.fewChunks && phase >= 2)) {
-				todo = append(todo, i)
+	var flMu sync.Mutex
+	fl := map[int64]*inflight{}
+	var flID int64
+
+	record := func(tc *tcase, seq []int, chunk int, ord [3]int, f finding) {
+		sig := "C17/" + tc.reader + "/" + f.class
+		countOutcome(tc.reader + ": " + f.class)
+		vmu.Lock()
+		if b := best[sig]; b == nil || less3(ord, b.order) {
+			best[sig] = &vrec{sig: sig, tc: tc, seq: seq, chunk: chunk, order: ord, f: f}
+		}
+		vmu.Unlock()
+	}
+
+	if *flagCount {
+		counts := map[string]int{}
+		total := 0
+		for phase := range cfg.chunks {
+			for _, tc := range cases {
+				if phase == 0 || (tc.chunkDep && !(tc.fewChunks && phase >= 2)) {
+					n := len(cfg.seqs)
+					if tc.noSeq {
+						n = 1
+					} else if tc.fewSeqs {
+						n = len(cfg.fewSeqs)
+					}
+					counts[tc.reader] += n
+					total += n
+				}
 			}
 		}
-		ev.Parallel(len(todo), runtime.NumCPU(), func(k int) {
-			ci := todo[k]
-			tc := cases[ci]
-			if r.OverBudget(cfg.budget) {
-				atomic.AddInt64(&skipped, 1)
-				return
-			}
-			seqs := cfg.seqs
-			if tc.noSeq {
-				seqs = noSeq
-			} else if tc.fewSeqs {
-				seqs = cfg.fewSeqs
-			}
-			st := stats[tc.reader]
-			for si, seq := range seqs {
-				t0 := time.Now()
-				fs, trace, in, nreads := runCase(tc, seq)
-				atomic.AddInt64(&st.ns, int64(time.Since(t0)))
-				atomic.AddInt64(&st.runs, 1)
-				atomic.AddInt64(&st.reads, int64(nreads))
-				atomic.AddInt64(&totalRuns, 1)
-				atomic.AddInt64(&totalReads, int64(nreads))
-				if in != nil {
-					eofRows, zr := false, false
-					for _, u := range in.ups {
-						if lo, hi := u.eofRange(); hi > lo {
-							eofRows = true
-						}
-						if _, z := u.stats(); z > 0 {
-							zr = true
-						}
-					}
-					if eofRows {
-						atomic.AddInt64(&st.eofRowRuns, 1)
-					}
-					if zr {
-						atomic.AddInt64(&st.zeroReadRuns, 1)
-					}
-				}
-				if trace != "" {
-					traces.add(tc.reader + "|" + trace)
-				} else {
-					cl := ""
-					for _, f := range fs {
-						cl += f.class + ","
-					}
-					traces.add(tc.reader + "|custom|" + cl)
-				}
-				if len(fs) == 0 {
-					outcomes.Add(tc.reader + ": ok")
-					if si == len(seqs)/2 {
-						sampleMu.Lock()
-						if !sampled[tc.reader] && trace != "" && sampleReaders[tc.reader] && strings.Contains(tc.desc, "+EOF") {
-							sampled[tc.reader] = true
-							r.Sample(map[string]interface{}{"reader": tc.reader, "case": tc.desc, "destination_lengths": seq, "chunk": chunk, "trace": trace, "verdict": "ok"})
-						}
-						sampleMu.Unlock()
-					}
+		for _, name := range readerNames {
+			fmt.Printf("%-32s %d\n", name, counts[name])
+		}
+		fmt.Printf("total runs %d, cases %d\n", total, len(cases))
+		os.Exit(0)
+	}
+
+	done := make(chan struct{})
+	go func() {
+		defer close(done)
+		for phase, chunk := range cfg.chunks {
+			setChunk(chunk)
+			var todo []int
+			for i, tc := range cases {
+				if *flagOnly != "" && !strings.Contains(tc.reader, *flagOnly) {
 					continue
 				}
-				for _, f := range fs {
-					sig := "C17/" + tc.reader + "/" + f.class
-					outcomes.Add(tc.reader + ": " + f.class)
-					ord := [3]int{phase, ci, si}
-					vmu.Lock()
-					if b := best[sig]; b == nil || less3(ord, b.order) {
-						best[sig] = &vrec{sig: sig, tc: tc, seq: seq, chunk: chunk, order: ord, f: f}
-					}
-					vmu.Unlock()
+				if phase == 0 || (tc.chunkDep && !(tc.fewChunks && phase >= 2)) {
+					todo = append(todo, i)
 				}
 			}
-		})
+			ev.Parallel(len(todo), runtime.NumCPU(), func(k int) {
+				ci := todo[k]
+				tc := cases[ci]
+				if atomic.LoadInt32(&aborted) != 0 || r.OverBudget(cfg.budget) {
+					atomic.AddInt64(&skipped, 1)
+					return
+				}
+				seqs := cfg.seqs
+				if tc.noSeq {
+					seqs = noSeq
+				} else if tc.fewSeqs {
+					seqs = cfg.fewSeqs
+				}
+				st := stats[tc.reader]
+				for si, seq := range seqs {
+					ord := [3]int{phase, ci, si}
+					id := atomic.AddInt64(&flID, 1)
+					t0 := time.Now()
+					flMu.Lock()
+					fl[id] = &inflight{tc: tc, seq: seq, order: ord, chunk: chunk, start: t0}
+					flMu.Unlock()
+					fs, trace, in, nreads := runCase(tc, seq)
+					flMu.Lock()
+					delete(fl, id)
+					flMu.Unlock()
+					if atomic.LoadInt32(&aborted) != 0 {
+						return
+					}
+					atomic.AddInt64(&st.ns, int64(time.Since(t0)))
+					atomic.AddInt64(&st.runs, 1)
+					atomic.AddInt64(&st.reads, int64(nreads))
+					atomic.AddInt64(&totalRuns, 1)
+					atomic.AddInt64(&totalReads, int64(nreads))
+					if in != nil {
+						eofRows, zr := false, false
+						for _, u := range in.ups {
+							if lo, hi := u.eofRange(); hi > lo {
+								eofRows = true
+							}
+							if _, z := u.stats(); z > 0 {
+								zr = true
+							}
+						}
+						if eofRows {
+							atomic.AddInt64(&st.eofRowRuns, 1)
+						}
+						if zr {
+							atomic.AddInt64(&st.zeroReadRuns, 1)
+						}
+					}
+					if trace != "" {
+						traces.add(tc.reader + "|" + trace)
+					} else {
+						cl := ""
+						for _, f := range fs {
+							cl += f.class + ","
+						}
+						traces.add(tc.reader + "|custom|" + cl)
+					}
+					if len(fs) == 0 {
+						countOutcome(tc.reader + ": ok")
+						if si == len(seqs)/2 {
+							sampleMu.Lock()
+							if !sampled[tc.reader] && trace != "" && sampleReaders[tc.reader] && strings.Contains(tc.desc, "+EOF") {
+								sampled[tc.reader] = true
+								r.Sample(map[string]interface{}{"reader": tc.reader, "case": tc.desc, "destination_lengths": seq, "chunk": chunk, "trace": trace, "verdict": "ok"})
+							}
+							sampleMu.Unlock()
+						}
+						continue
+					}
+					for _, f := range fs {
+						record(tc, seq, chunk, ord, f)
+					}
+				}
+			})
+		}
+	}()
+
+	// Hang watchdog: a Read that never returns (e.g. a reader spinning on an input
+	// that makes no progress) cannot be interrupted; it is confirmed by two more
+	// executions with the same limit, reported, and the run is ended.
+	hung := make(chan struct{})
+	go func() {
+		for {
+			time.Sleep(2 * time.Second)
+			var stuck *inflight
+			flMu.Lock()
+			for _, f := range fl {
+				if time.Since(f.start) > hangAfter && (stuck == nil || less3(f.order, stuck.order)) {
+					stuck = f
+				}
+			}
+			flMu.Unlock()
+			if stuck == nil {
+				continue
+			}
+			confirmed := true
+			for k := 0; k < 2 && confirmed; k++ {
+				fin := make(chan struct{})
+				go func() { runCase(stuck.tc, stuck.seq); close(fin) }()
+				select {
+				case <-fin:
+					confirmed = false
+				case <-time.After(hangAfter):
+				}
+			}
+			if !confirmed {
+				flMu.Lock()
+				stuck.start = time.Now() // slow, not hung: give it another period
+				flMu.Unlock()
+				continue
+			}
+			atomic.StoreInt32(&aborted, 1)
+			record(stuck.tc, stuck.seq, stuck.chunk, stuck.order, finding{class: "hang",
+				msg: fmt.Sprintf("reading to EOF did not finish within %v (three executions); normal runs take milliseconds", hangAfter)})
+			close(hung)
+			return
+		}
+	}()
+	select {
+	case <-done:
+	case <-hung:
+		r.NotExhaustive("run ended after a confirmed hang inside a Read call (the stuck goroutine cannot be stopped)")
 	}
 	if skipped > 0 {
 		r.NotExhaustive(fmt.Sprintf("time budget %v hit: %d (case, vector-size) points not run", cfg.budget, skipped))
 	}
 
 	// Report: simplest counterexample per signature, re-executed first.
+	vmu.Lock()
+	final := map[string]*vrec{}
+	for k, v := range best {
+		final[k] = v
+	}
+	vmu.Unlock()
 	var sigs []string
-	for sig := range best {
+	for sig := range final {
 		sigs = append(sigs, sig)
 	}
 	sort.Strings(sigs)
 	for _, sig := range sigs {
-		b := best[sig]
-		setChunk(b.chunk)
-		again, _, _, _ := runCase(b.tc, b.seq)
-		reproduced := false
-		for _, f := range again {
-			if f.class == b.f.class {
-				reproduced = true
+		b := final[sig]
+		if b.f.class != "hang" {
+			setChunk(b.chunk)
+			again, _, _, _ := runCase(b.tc, b.seq)
+			reproduced := false
+			for _, f := range again {
+				if f.class == b.f.class {
+					reproduced = true
+				}
+			}
+			if !reproduced {
+				if atomic.LoadInt32(&aborted) != 0 {
+					continue // recorded while the run was being torn down
+				}
+				ev.Fatal("finding %s on case %q seq %v did not reproduce on re-execution (harness nondeterminism)", sig, b.tc.desc, b.seq)
 			}
 		}
-		if !reproduced {
-			ev.Fatal("finding %s on case %q seq %v did not reproduce on re-execution (harness nondeterminism)", sig, b.tc.desc, b.seq)
-		}
 		detail := map[string]interface{}{
-			"reader":              b.tc.reader,
-			"case":                b.tc.desc,
-			"destination_lengths": b.seq,
-			"vector_size":         b.chunk,
-			"trace":               b.f.trace,
-			"observed":            b.f.msg,
+			"reader":      b.tc.reader,
+			"case":        b.tc.desc,
+			"vector_size": b.chunk,
+			"trace":       b.f.trace,
+			"observed":    b.f.msg,
+		}
+		where := ""
+		if !b.tc.noSeq {
+			detail["destination_lengths"] = b.seq
+			where = fmt.Sprintf(", destination frame lengths %v (cycled)", b.seq)
 		}
 		if b.tc.ref != nil {
 			detail["reference_rows"] = fulls(b.tc.ref(b.tc.inputs))
 		}
-		r.Violate(sig, fmt.Sprintf("%s [%s], destination frame lengths %v (cycled): %s", b.tc.reader, b.tc.desc, b.seq, b.f.msg), detail)
+		r.Violate(sig, fmt.Sprintf("%s [%s]%s: %s", b.tc.reader, b.tc.desc, where, b.f.msg), detail)
 	}
 
 	for _, name := range readerNames {
 		st := stats[name]
 		r.Note("%s: runs=%d reads=%d runs_with_rows_delivered_with_EOF_by_an_input=%d runs_with_zero_row_input_reads=%d",
-			name, st.runs, st.reads, st.eofRowRuns, st.zeroReadRuns)
+			name, atomic.LoadInt64(&st.runs), atomic.LoadInt64(&st.reads), atomic.LoadInt64(&st.eofRowRuns), atomic.LoadInt64(&st.zeroReadRuns))
 		if os.Getenv("C17_TIMING") != "" {
 			fmt.Fprintf(os.Stderr, "c17: %-28s runs=%-8d reads=%-9d busy=%.1fs\n", name, st.runs, st.reads, float64(st.ns)/1e9)
 		}
 	}
-	r.Note("outcomes: %s", strings.Join(outcomeList(outcomes), "; "))
-	r.Note("cases=%d destination_sequences=%d vector_sizes=%v", len(cases), len(cfg.seqs), cfg.chunks)
-	fmt.Fprintf(os.Stderr, "c17: cases=%d runs=%d reads=%d distinct_traces=%d distinct_outcomes=%d\n", len(cases), totalRuns, totalReads, traces.size(), outcomes.Distinct())
+	ocMu.Lock()
+	var ocs []string
+	for _, k := range outcomes.Keys() {
+		ocs = append(ocs, fmt.Sprintf("%s ×%d", k, outcomeRuns[k]))
+	}
+	ocMu.Unlock()
+	r.Note("outcomes (runs): %s", strings.Join(ocs, "; "))
+	r.Note("cases=%d destination_sequences=%d (reduced set for cogroup: %d) vector_sizes=%v", len(cases), len(cfg.seqs), len(cfg.fewSeqs), cfg.chunks)
+	fmt.Fprintf(os.Stderr, "c17: cases=%d runs=%d reads=%d distinct_traces=%d distinct_outcomes=%d\n", len(cases), atomic.LoadInt64(&totalRuns), atomic.LoadInt64(&totalReads), traces.size(), outcomes.Distinct())
 	r.Finish(ev.Coverage{
 		"states":                        traces.size(),
-		"transitions":                   totalReads,
-		"traces_validated_against_impl": totalRuns,
+		"transitions":                   atomic.LoadInt64(&totalReads),
+		"traces_validated_against_impl": atomic.LoadInt64(&totalRuns),
 		"distinct_outcomes":             outcomes.Distinct(),
 		"readers_under_test":            len(readerNames),
 		"cases":                         len(cases),
-		"exhaustive":                    skipped == 0,
 	})
 }
 
 var sampleReaders = map[string]bool{"flatmap": true, "filter": true, "cogroup": true, "sortio.MergeReader": true,
 	"reduce(sortio.Reduce)": true, "fold": true, "head": true, "map": true}
-
-func outcomeList(c *ev.Counter) []string { return c.Keys() }
 
 func less3(a, b [3]int) bool {
 	for i := range a {
